@@ -27,12 +27,11 @@ impl LintContext {
         } = lint.clone();
 
         let problem_tokens = document.token_indices_intersecting(lint.span);
-        let prequel_tokens = lint
-            .span
-            .with_len(2)
-            .pulled_by(2)
-            .map(|v| document.token_indices_intersecting(v))
-            .unwrap_or_default();
+        // Up to two characters before the lint (fewer at the very start of the document).
+        let prequel_tokens = document.token_indices_intersecting(Span::new(
+            lint.span.start.saturating_sub(2),
+            lint.span.start,
+        ));
         let sequel_tokens =
             document.token_indices_intersecting(Span::new_with_len(lint.span.end, 2));
 
